@@ -1648,7 +1648,13 @@ impl IQLEngine {
 
             // Create fresh CodeGenerator for each rule (avoids timely state issues)
             let mut codegen = CodeGenerator::new();
-            codegen.set_max_result_rows(self.max_result_rows);
+            // The row limit caps what the query returns. Intermediate rules must be
+            // evaluated in full: truncating them changes the meaning of the rules
+            // that read them (a truncated `p` makes `!p(X)` succeed for tuples
+            // outside the true answer).
+            if execution_order.last() == Some(&i) {
+                codegen.set_max_result_rows(self.max_result_rows);
+            }
             // Set per-rule semiring type from boolean specialization
             let semiring = self
                 .semiring_annotations
